@@ -154,8 +154,8 @@ type c12Step struct {
 	// as a MeshSilence with the stored expiresAt, i.e. without the copy of the first matcher set that the
 	// snapshot/gossip encoding adds for older versions); 0 if it could not be queried.
 	RetSize int
-	Got   *c12Obs
-	GCN   int
+	Got     *c12Obs
+	GCN     int
 
 	RecsBefore []c12Rec
 	Recs       []c12Rec
